@@ -54,6 +54,14 @@ CHECKS = {
         note="Trusted: path-definition separation oracle. Cyclic graphs: only symmetry and adjacency are judged, as the property states.",
         design="4/C20",
     ),
+    "C16": dict(
+        text="Round trip ADMG -> LV-DAG -> ADMG on every graph of the bound; simplify_latent_dag on every DAG with up to 4 labelled "
+        "nodes (plus five-node DAGs) under every latent tagging: idempotence, observed nodes kept, mixed graph read off compared "
+        "with the definition-based latent projection, separation among observed nodes and single-cause/effect ID verdicts "
+        "compared with oracles; evans_simplify with every additional latent subset.",
+        note="Trusted: definition-based latent projection and separation/identifiability oracles in mc/graphs.py.",
+        design="4/C16",
+    ),
     "C17": dict(
         text="Every (graph, linear extension, district T, bidirected-connected C inside T) within the bound is passed to "
         "identify_district_variables with Q[T] from compute_c_factor and as the Lemma-1 product; results are evaluated exactly on "
